@@ -18,6 +18,13 @@
 // their second-round observations must be equal (clause late-registration-mount-vs-group).
 // Splits whose late part contains a mount are run and classified but NOT judged: mounting a sub-app
 // on a running application is specified neither by the statement nor by the docs.
+//
+// Prefixes with every parameter kind (parameterised-prefix family, enum.go): a third family of
+// trees (depth 3) whose mount/group prefixes carry named, optional, <int>-constrained, wildcard
+// and greedy parameters (several of them, constants after them) and whose routes have parameters
+// of the same and of other kinds runs through all clauses in richMode: every parameter position
+// of a request has its own value and every handler reports Route().Params, Params(name) for each
+// declared name, the positional names *1.. / +1.., the shorthands * and +, and Params with default.
 package main
 
 import (
@@ -38,8 +45,11 @@ import (
 
 const nWorkers = 16
 
-// onlyLate is a diagnostic switch, never set by ./check: explore the late-registration family only.
+// diagnostic switches, never set by ./check: explore one of the added families only
+// (C04_ONLY_LATE=1: the late-registration family; C04_ONLY_PARAMS=1: the parameterised-prefix family).
 var onlyLate = os.Getenv("C04_ONLY_LATE") == "1"
+var onlyParams = os.Getenv("C04_ONLY_PARAMS") == "1"
+var onlyOne = onlyLate || onlyParams
 
 const fullShrinkCap = 150
 
@@ -77,8 +87,11 @@ type worker struct {
 	fullShrinks int
 	maxPairs    int
 	lateSamples int
-	mixedAt     int  // request index of the last two-phase run at which a spliced and a late handler ran (-1 = none)
-	allDev      bool // classification: explore the deviating map orders under every configuration
+	richSamples int
+	pre         string // counter prefix of the family being explored ("" = first family)
+	cfgSel      []int  // configurations evaluated by evalTree (nil = all)
+	mixedAt     int    // request index of the last two-phase run at which a spliced and a late handler ran (-1 = none)
+	allDev      bool   // classification: explore the deviating map orders under every configuration
 }
 
 func main() {
@@ -87,9 +100,9 @@ func main() {
 	treeFlag := flag.String("show", "", "with -only: also print the observations of every program")
 	treeText := flag.String("tree", "", `evaluate the tree given in text form, e.g. [mount("/:t"){GET "/x" reply}], and print every differing request`)
 	r := core.Start("C04")
-	pol, lpol := quickPolicy(), quickLatePolicy()
+	pol, lpol, rpol := quickPolicy(), quickLatePolicy(), quickRichPolicy()
 	if !r.Quick() {
-		pol, lpol = thoroughPolicy(), thoroughLatePolicy()
+		pol, lpol, rpol = thoroughPolicy(), thoroughLatePolicy(), thoroughRichPolicy()
 	}
 	if *countOnly {
 		total, classes := enumerate(pol, func(int64) bool { return false }, nil)
@@ -103,6 +116,12 @@ func main() {
 			fmt.Println(c)
 		}
 		fmt.Println("total trees:", ltotal)
+		rtotal, rclasses := enumerate(rpol, func(int64) bool { return false }, nil)
+		fmt.Println("parameterised-prefix family:")
+		for _, c := range rclasses {
+			fmt.Println(c, "x", len(rpol.cfgsFor(c.C, c.N)), "configurations")
+		}
+		fmt.Println("total trees:", rtotal)
 		return
 	}
 	if *treeText != "" || r.Replay != "" {
@@ -121,25 +140,32 @@ func main() {
 				defer pprof.StopCPUProfile()
 			}
 		}
-		runWorker(r, pol, lpol)
+		runWorker(r, pol, lpol, rpol)
 		return
 	}
 	total, classes := enumerate(pol, func(int64) bool { return false }, nil)
 	ltotal, lclasses := enumerate(lpol, func(int64) bool { return false }, nil)
+	rtotal, rclasses := enumerate(rpol, func(int64) bool { return false }, nil)
 	if crashed := r.SpawnWorkers(nWorkers, []string{"GOMAXPROCS=1"}); len(crashed) > 0 {
 		core.Fatal("workers crashed: %v", crashed)
 	}
-	if r.P.Counters["trees"] != total && len(r.P.Caps) == 0 && !onlyLate {
+	if r.P.Counters["trees"] != total && len(r.P.Caps) == 0 && !onlyOne {
 		core.Fatal("enumeration mismatch: workers evaluated %d trees, enumeration has %d", r.P.Counters["trees"], total)
 	}
-	if r.P.Counters["late_family_trees"] != ltotal && len(r.P.Caps) == 0 {
+	if r.P.Counters["late_family_trees"] != ltotal && len(r.P.Caps) == 0 && !onlyParams {
 		core.Fatal("enumeration mismatch: workers evaluated %d trees of the late-registration family, enumeration has %d", r.P.Counters["late_family_trees"], ltotal)
 	}
-	if len(r.P.Caps) == 0 && (r.P.Counters["late_evaluations"] == 0 || r.P.Counters["late_nontrivial"] == 0 || r.P.Counters["late_evaluations_with_spliced_and_late_handler_in_one_request"] == 0) {
+	if r.P.Counters["param_trees"] != rtotal && len(r.P.Caps) == 0 && !onlyLate {
+		core.Fatal("enumeration mismatch: workers evaluated %d trees of the parameterised-prefix family, enumeration has %d", r.P.Counters["param_trees"], rtotal)
+	}
+	if len(r.P.Caps) == 0 && !onlyLate && (r.P.Counters["param_nontrivial"] == 0 || r.P.Counters["param_evaluations_reading_a_second_wildcard_or_plus_value"] == 0) {
+		core.Fatal("vacuous exploration: no handler of the parameterised-prefix family read a second wildcard/plus value: %v", r.P.Counters)
+	}
+	if len(r.P.Caps) == 0 && !onlyParams && (r.P.Counters["late_evaluations"] == 0 || r.P.Counters["late_nontrivial"] == 0 || r.P.Counters["late_evaluations_with_spliced_and_late_handler_in_one_request"] == 0) {
 		core.Fatal("vacuous exploration: no two-phase program ran a handler registered after start-up: %v", r.P.Counters)
 	}
 	// anti-vacuity: the mechanisms under test were exercised
-	if len(r.P.Caps) == 0 && !onlyLate && (r.P.Counters["mount_evaluations_with_inner_handler_run"] == 0 || r.P.Counters["map_order_deviations_run"] == 0 || r.P.Counters["nontrivial"] == 0) {
+	if len(r.P.Caps) == 0 && !onlyOne && (r.P.Counters["mount_evaluations_with_inner_handler_run"] == 0 || r.P.Counters["map_order_deviations_run"] == 0 || r.P.Counters["nontrivial"] == 0) {
 		core.Fatal("vacuous exploration: no mounted handler ran or no deviating map order was explored: %v", r.P.Counters)
 	}
 	var classText, lclassText []string
@@ -148,6 +174,10 @@ func main() {
 	}
 	for _, c := range lclasses {
 		lclassText = append(lclassText, c.String())
+	}
+	var rclassText []string
+	for _, c := range rclasses {
+		rclassText = append(rclassText, fmt.Sprintf("%s x %d configurations", c, len(rpol.cfgsFor(c.C, c.N))))
 	}
 	var lcfgText []string
 	for _, ci := range lpol.phasedCfgs {
@@ -163,8 +193,8 @@ func main() {
 		Level:      "exploration",
 		Exhaustive: true,
 		Coverage: map[string]any{
-			"evaluations":         r.P.Counters["evaluations"] + r.P.Counters["late_evaluations"],
-			"distinct_nontrivial": r.P.Counters["nontrivial"] + r.P.Counters["late_nontrivial"],
+			"evaluations":         r.P.Counters["evaluations"] + r.P.Counters["late_evaluations"] + r.P.Counters["param_evaluations"],
+			"distinct_nontrivial": r.P.Counters["nontrivial"] + r.P.Counters["late_nontrivial"] + r.P.Counters["param_nontrivial"],
 			"unspecified_skipped": unspec,
 			"unspecified_classes": map[string]any{
 				"what":       "Route().Path seen by a handler is spelled differently although trace, Params, status, Allow and body agree (counters 'route-path-spelling <clause> <class>'); not part of the answer to a request, hence not judged",
@@ -172,6 +202,7 @@ func main() {
 				"late_mount": "two-phase programs whose late part contains a mount (plain, from a group, or nested): neither the statement nor the docs (docs/api/app.md RebuildTree: dynamic registration of routes, 'with caution', development mode) say anything about mounting a sub-app on a running application; such programs are run, classified (outcomes 'unspecified: sub-app mounted after start-up ...', counters late_mount_after_startup_programs_*) and their second-round requests counted in unspecified_skipped, but never judged",
 			},
 			"rule": "one evaluation = one (program tree, routing configuration) pair: the tree is built as P (mounts as written; also with the sub-app mounted first and populated afterwards), P' (every mount replaced by a group with the mount prefix at the same position), P'' (every group prefix folded into the full path) and P''' (Route() chains), every request derived from the tree (each full pattern instantiated with v/w, with and without trailing slash, other letter case, %78 for x, below-prefix and glued-suffix paths for middleware, every container prefix with and without slash, '/' and one foreign path) x {GET, POST} is sent to each program and trace+Params+status+Allow+body are compared P~P', P'~P'', P'''~P''; P is also rebuilt under every deviating appList map iteration order (" + dev + ") and compared with the default order. Trees: every skeleton (<= 3 items per level, depth and size bounds below, >= 1 container) x every labelling with the alphabets of its size class; all (tree, configuration) pairs are distinct by construction. An evaluation is non-trivial when, in P', at least one handler registered inside a container ran (the prefix mechanism decided the answer); counted in the loop. " +
+				"Parameterised-prefix family (prefixes with every parameter kind): a further evaluation = one (tree, configuration) pair of a third family whose container prefixes carry named, optional, <int>-constrained, wildcard and greedy parameters, several of them and constants after them (on mounts and groups, nested up to two deep; the full-path and Route()-chain programs spell the same prefixes at their levels) and whose routes and middleware have parameters of the same and of other kinds; all clauses of the first family are evaluated, with requests that give every parameter position its own value and handlers that report every way of reading parameters (bounds.parameterised_prefix_family); non-trivial as in the first family. " +
 				"Late-registration family (program steps after start-up): a further evaluation = one (two-phase program, routing configuration) pair, where a two-phase program is a tree of the late-registration family (>= 2 top-level items, >= 1 mount, leaf letters with the verb POST besides GET/USE/ALL) together with a split of its top-level sequence into a non-empty part registered before start-up and a non-empty part (routes of every kind and groups of routes; splits whose late part contains a mount are unspecified and not judged, see unspecified_classes) registered on the root app after app.Handler() ran the start-up pass and every request was served once; app.RebuildTree() follows and every request is served again; the second-round observations of P (mounts) and P' (groups, same step sequence) must be equal (requests on which the one-phase P and P' already differ are left to the mount-vs-group clause, which is also evaluated on every tree of this family under all configurations). Such an evaluation is non-trivial when, in P', a handler registered after start-up ran in the second round; counted in the loop.",
 			"bounds": map[string]any{
 				"depth":                fmt.Sprintf("%d (quick tier: depth 2 plus the two-level container letters mount-from-group group(a){mount(b){..}} and mount-in-mount mount(a){mount(b){..}})", pol.depth),
@@ -186,6 +217,15 @@ func main() {
 				"patterns":             patRank,
 				"prefixes":             prefixRank,
 				"map_order_deviations": dev,
+				"parameterised_prefix_family": map[string]any{
+					"size_classes": rclassText,
+					"trees":        rtotal,
+					"depth":        rpol.depth,
+					"prefixes":     richPrefixOrder,
+					"leaf_letters": "kinds GET, USE, ALL x patterns '/*', '/+', '/:id', '/:id?', '/:id<int>', '/:t' (same name as the prefix parameter), '/o/*', '/x', '/' x reply/next (the first n of a fixed order per size class)",
+					"requests":     "every full pattern and container prefix instantiated with a distinct value per parameter position (a, b, c, ...; digits for <int>): one segment per parameter, two segments per wildcard/plus, optional parameters absent, letters for <int>; plus trailing slash, upper case, below-prefix and glued-suffix paths, '/' and one foreign path; x {GET, POST}",
+					"observation":  "per handler: Route().Params, Params(name) for every declared name, Params of *1 *2 *3 +1 +2 +3, the shorthands * and +, Params with default for an undeclared name and for t, fiber.Params[int](c, \"id\", -1); then status, Allow, body",
+				},
 				"late_registration_family": map[string]any{
 					"size_classes":         lclassText,
 					"trees":                ltotal,
@@ -219,10 +259,10 @@ func newWorker(r *core.Run) *worker {
 	return w
 }
 
-func runWorker(r *core.Run, pol, lpol policy) {
+func runWorker(r *core.Run, pol, lpol, rpol policy) {
 	debug.SetGCPercent(100)
 	w := newWorker(r)
-	limit := 6 * time.Minute
+	limit := 12 * time.Minute // safety net only: an idle machine needs less than a minute, a machine shared with many other checks several
 	if !r.Quick() {
 		limit = 40 * time.Minute
 	}
@@ -230,7 +270,7 @@ func runWorker(r *core.Run, pol, lpol policy) {
 	capped := false
 	var n int64
 	enumerate(pol, func(idx int64) bool {
-		if onlyLate || !r.Shard(int(idx%(1<<30))) {
+		if onlyOne || !r.Shard(int(idx%(1<<30))) {
 			return false
 		}
 		if capped {
@@ -248,7 +288,7 @@ func runWorker(r *core.Run, pol, lpol policy) {
 	})
 	// late-registration family (shards continue the index space of the first family)
 	enumerate(lpol, func(idx int64) bool {
-		if !r.Shard(int(idx % (1 << 30))) {
+		if onlyParams || !r.Shard(int(idx%(1<<30))) {
 			return false
 		}
 		if capped {
@@ -263,6 +303,28 @@ func runWorker(r *core.Run, pol, lpol policy) {
 		return true
 	}, func(idx int64, t *tree) {
 		w.evalLateTree(idx, t, lpol)
+	})
+	// parameterised-prefix family: switch the mode once, drop everything cached under the other mode
+	richMode = true
+	w.pre = "param_"
+	w.chainCache, w.hasMemo, w.bySig = map[string]*sigInfo{}, map[string]bool{}, map[string]*sigInfo{}
+	enumerate(rpol, func(idx int64) bool {
+		if onlyLate || !r.Shard(int(idx%(1<<30))) {
+			return false
+		}
+		if capped {
+			return false
+		}
+		n++
+		if n%64 == 0 && (time.Now().After(deadline) || r.Expired()) {
+			capped = true
+			r.Cap("wall-clock limit reached before all trees were explored")
+			return false
+		}
+		return true
+	}, func(idx int64, t *tree) {
+		w.cfgSel = rpol.cfgsFor(treeClass(t))
+		w.evalTree(idx, t)
 	})
 	w.flush()
 	r.Merge(w.l.P)
@@ -311,7 +373,20 @@ func (w *worker) tally(o *obsSet) {
 			nh = 3
 		}
 		hp := 0
-		if bytes.Count(tr, []byte(":,,;")) < bytes.Count(tr, []byte{';'}) {
+		if richMode {
+			for j := bytes.Index(tr, []byte(",n.")); j >= 0; {
+				e := bytes.IndexByte(tr[j:], '=')
+				if e >= 0 && j+e+1 < len(tr) && tr[j+e+1] != ',' && tr[j+e+1] != ';' {
+					hp = 1 // some handler read a non-empty declared parameter
+					break
+				}
+				k := bytes.Index(tr[j+3:], []byte(",n."))
+				if k < 0 {
+					break
+				}
+				j += 3 + k
+			}
+		} else if bytes.Count(tr, []byte(":,,;")) < bytes.Count(tr, []byte{';'}) {
 			hp = 1 // some handler saw a non-empty parameter
 		}
 		si := 3
@@ -330,17 +405,30 @@ func (w *worker) tally(o *obsSet) {
 
 func (w *worker) evalTree(idx int64, t *tree) {
 	ti := analyse(t)
-	w.l.Add("trees", 1)
+	w.l.Add(w.pre+"trees", 1)
 	w.pending = w.pending[:0]
 	for ci, c := range cfgs {
-		w.l.Add("evaluations", 1)
+		if w.cfgSel != nil {
+			sel := false
+			for _, k := range w.cfgSel {
+				sel = sel || k == ci
+			}
+			if !sel {
+				continue
+			}
+		}
+		w.l.Add(w.pre+"evaluations", 1)
 		for k := range w.seenKinds {
 			delete(w.seenKinds, k)
 		}
-		w.e.sawInside = false
+		w.e.sawInside, w.e.sawSecond = false, false
 		w.e.runAll(t, ti, c, progGroup, nil, &w.oG)
 		if w.e.sawInside {
-			w.l.Add("nontrivial", 1)
+			w.l.Add(w.pre+"nontrivial", 1)
+		}
+		if w.e.sawSecond {
+			// anti-vacuity of the parameterised-prefix family: a handler read a non-empty *2 or +2
+			w.l.Add(w.pre+"evaluations_reading_a_second_wildcard_or_plus_value", 1)
 		}
 		w.tally(&w.oG)
 		if ti.hasMount {
@@ -370,7 +458,18 @@ func (w *worker) evalTree(idx int64, t *tree) {
 		w.e.runAll(t, ti, c, progRoute, nil, &w.oR)
 		w.compare(clRoute, ci, &w.oR, &w.oF)
 	}
-	if w.r.Worker <= 0 && idx%40000 == 1600 && len(w.l.P.Samples) < 3 {
+	if richMode && (w.r.Worker == 2 || w.r.Worker < 0) && w.richSamples < 2 && w.e.sawSecond && idx >= int64(3000*w.richSamples) {
+		w.richSamples++
+		for i := 0; i < w.oG.n(); i++ {
+			if b := w.oG.get(i); bytes.Contains(b, []byte(",*2=b")) || bytes.Contains(b, []byte(",+2=b")) {
+				m, p := reqAt(ti, i)
+				w.l.Sample(map[string]any{"tree": modePrefix() + t.String(), "config": cfgs[len(cfgs)-1].String(), "requests": len(ti.paths) * len(methods),
+					"paths": ti.paths, "request": m + " " + p, "observation_P'": string(b)})
+				break
+			}
+		}
+	}
+	if !richMode && w.r.Worker <= 0 && idx%40000 == 1600 && len(w.l.P.Samples) < 3 {
 		m, p := reqAt(ti, w.oG.n()-1)
 		w.l.Sample(map[string]any{"tree": t.String(), "config": cfgs[len(cfgs)-1].String(), "requests": len(ti.paths) * len(methods),
 			"paths": ti.paths, "last_request": m + " " + p, "observation_P'": string(w.oG.get(w.oG.n() - 1))})
@@ -379,6 +478,23 @@ func (w *worker) evalTree(idx int64, t *tree) {
 		si := w.classify(t, ti, p)
 		w.record(si)
 	}
+}
+
+// treeClass is the (containers, leaves) size class of t.
+func treeClass(t *tree) (c, n int) {
+	var rec func(items []*node)
+	rec = func(items []*node) {
+		for _, it := range items {
+			if it.T == 'r' {
+				n++
+			} else {
+				c++
+				rec(it.Items)
+			}
+		}
+	}
+	rec(t.Items)
+	return
 }
 
 // evalLateTree evaluates one tree of the late-registration family: the one-phase P and P' under
@@ -436,7 +552,7 @@ func (w *worker) evalLateTree(idx int64, t *tree, lpol policy) {
 			w.comparePhased(ci, tt.Late, ti.lateMask(&tt), ti.insideM)
 		}
 	}
-	if w.r.Worker <= 0 && w.lateSamples < 2 && idx >= int64(1500+14000*w.lateSamples) && w.mixedAt >= 0 {
+	if (w.r.Worker == 1 || w.r.Worker < 0) && w.lateSamples < 1 && idx >= 1500 && w.mixedAt >= 0 && bytes.Equal(w.oQ.get(w.mixedAt), w.oH.get(w.mixedAt)) { // core keeps 3 samples per worker: worker 0 gives those of the first family
 		// sample: the last two-phase program of this tree, at a request that ran a spliced and a late handler
 		w.lateSamples++
 		tt := *t
@@ -835,7 +951,7 @@ func (w *worker) minimise(t *tree, c rcfg, clause, kind string) *sigInfo {
 	if hit.detail != "" {
 		parts = append(parts, hit.detail)
 	}
-	parts = append(parts, "min="+cur.String(), "cfg="+cfgConstraint(fail))
+	parts = append(parts, "min="+modePrefix()+cur.String(), "cfg="+cfgConstraint(fail))
 	pair := map[string]string{
 		clMount:     progNames[progMount] + " vs " + progNames[progGroup],
 		clMountLate: progNames[progMountLate] + " vs " + progNames[progGroup],
@@ -846,7 +962,7 @@ func (w *worker) minimise(t *tree, c rcfg, clause, kind string) *sigInfo {
 		clRoute:     progNames[progRoute] + " vs " + progNames[progFlat],
 	}[clause]
 	cs := map[string]any{
-		"minimal_tree":    cur.String(),
+		"minimal_tree":    modePrefix() + cur.String(),
 		"program_P":       strings.Split(strings.TrimSpace(cur.goProgram()), "\n"),
 		"config":          fail[0].String(),
 		"failing_configs": len(fail),
